@@ -70,20 +70,34 @@ class HarnessError(Exception):
 
 
 def run_impl(tasks, mode="interp", timeout=900, extra_env=None, script="implrun.py"):
-    """Run `tasks` (a list of dicts) against the real code in a fresh subprocess."""
+    """Run `tasks` (a list of dicts) against the real code in fresh subprocess(es).  A task that
+    overruns its own limit inside native code makes the worker stop (exit 17) after writing what it
+    has; the remaining tasks are relaunched, the overrunning one is reported as status `Timeout`."""
     os.makedirs(os.path.join(CACHE, "tmp"), exist_ok=True)
-    with tempfile.TemporaryDirectory(dir=os.path.join(CACHE, "tmp")) as td:
-        fi, fo = os.path.join(td, "in.pkl"), os.path.join(td, "out.pkl")
-        with open(fi, "wb") as f:
-            pickle.dump(tasks, f)
-        p = subprocess.run([PY, os.path.join(HARNESS, script), fi, fo],
-                           env=impl_env(mode, extra_env), capture_output=True, text=True,
-                           timeout=timeout)
-        if p.returncode != 0 or not os.path.exists(fo):
-            raise HarnessError(f"implementation worker failed (mode={mode}) rc={p.returncode}\n"
-                               f"{p.stdout[-2000:]}\n{p.stderr[-4000:]}")
-        with open(fo, "rb") as f:
-            return pickle.load(f)
+    results = []
+    remaining = list(tasks)
+    t_end = time.time() + timeout
+    while remaining:
+        with tempfile.TemporaryDirectory(dir=os.path.join(CACHE, "tmp")) as td:
+            fi, fo = os.path.join(td, "in.pkl"), os.path.join(td, "out.pkl")
+            with open(fi, "wb") as f:
+                pickle.dump(remaining, f)
+            try:
+                p = subprocess.run([PY, os.path.join(HARNESS, script), fi, fo],
+                                   env=impl_env(mode, extra_env), capture_output=True, text=True,
+                                   timeout=max(t_end - time.time(), 30))
+            except subprocess.TimeoutExpired:
+                raise HarnessError(f"implementation worker exceeded {timeout}s (mode={mode})")
+            if p.returncode not in (0, 17) or not os.path.exists(fo):
+                raise HarnessError(f"implementation worker failed (mode={mode}) rc={p.returncode}\n"
+                                   f"{p.stdout[-2000:]}\n{p.stderr[-4000:]}")
+            with open(fo, "rb") as f:
+                got = pickle.load(f)
+        if not got:
+            raise HarnessError("implementation worker made no progress")
+        results += got
+        remaining = remaining[len(got):]
+    return results
 
 
 # ----------------------------------------------------------------------------- floats as bits
